@@ -363,6 +363,65 @@ fn run(c: &mut Case) {
             }
         }
     }
+    // ---------------------------------------------------------------- (d''): sizes up to the limit in force are not "too large"
+    // (the default is documented as "more than 4GB" are rejected; a lowered default silently refuses legal files).  A master
+    // at root level involves no allocation, so sizes right up to 4*10^9 can be declared; under an explicit small limit a
+    // Binary leaf of exactly the limit, payload present, is read as well.
+    {
+        let spec = gen::z_kitchen(false);
+        spec.install();
+        let (limit_mode, limit): (MaxSz, u64) = match c.rng.below(4) {
+            0 => (MaxSz::Set(Some(1 << 16)), 1 << 16),
+            1 => (MaxSz::Set(Some(1 << 20)), 1 << 20),
+            _ => (MaxSz::Default, 4_000_000_000),
+        };
+        let v: u64 = loop {
+            let v = match c.rng.below(4) {
+                0 => limit - c.rng.below(3),
+                1 => limit - c.rng.below(limit / 2),
+                _ => ((1u64 << (7 * c.rng.urange(1, 4))) as i64 + *c.rng.pick(&[-2i64, -1, -1, 0, 1])) as u64,
+            };
+            if v <= limit && v >= 8 {
+                break v;
+            }
+        };
+        let w = c.rng.urange(crate::refcodec::min_size_width(v).unwrap(), 8);
+        let mut bytes = id_bytes(0x18538067);
+        bytes.extend(enc_vint(v, w));
+        bytes.extend([0xEC, 0x82, 0x01, 0x02]);
+        let cfg = RCfg { allow: c.rng.below(8) as u8, buffered: vec![], capacity: None, max_size: limit_mode, eof_end: true };
+        let p = parse_slice(&bytes, &cfg);
+        c.eval();
+        c.count("within_limit_probes");
+        let ok = p.items.first().map(|(i, _)| *i == Item::Start(0x18538067)).unwrap_or(false) && !matches!(&p.end, Ev::Err(ErrRec::InvalidTagSize { .. }));
+        if !ok {
+            c.violation(
+                format!("C13/within-limit-rejected/{}/master", if limit_mode == MaxSz::Default { "default" } else { "explicit" }),
+                format!("a master declaring {} bytes ({}-byte field) is within the limit in force ({}) but was handled as {}", v, w, limit, p.end.short()),
+                J::obj().set("bytes", J::hex(&bytes)).set("config", cfg.to_json()).set("parse", p.to_json(8)),
+            );
+        }
+        if limit_mode != MaxSz::Default && c.rng.below(if limit > (1 << 16) { 256 } else { 32 }) == 0 {
+            // Binary leaf (Priv under Seg/Tracks/Entry, all unknown-size) of exactly v <= limit bytes, payload present
+            let mut b2 = Vec::new();
+            for id in [0x18538067u64, 0x1654AE6B, 0xAE] {
+                b2.extend(id_bytes(id));
+                b2.extend(crate::refcodec::enc_unknown_size(1));
+            }
+            let off = b2.len();
+            b2.extend(id_bytes(0x63A2));
+            b2.extend(enc_vint(v, w));
+            let payload = c.rng.bytes(v as usize);
+            b2.extend(&payload);
+            let p2 = parse_slice(&b2, &cfg);
+            c.eval();
+            c.count("within_limit_leaf_probes");
+            let ok2 = p2.items.get(3).map(|(i, o)| *o == off && matches!(i, Item::B(0x63A2, d) if *d == payload)).unwrap_or(false);
+            if !ok2 {
+                c.violation("C13/within-limit-rejected/explicit/leaf", format!("a Binary element of {} bytes is within the limit {} but was handled as {} after {} items", v, limit, p2.end.short(), p2.items.len()), J::obj().set("config", cfg.to_json()).set("declared", J::u(v)).set("parse", p2.to_json(6)));
+            }
+        }
+    }
     // ---------------------------------------------------------------- (d'): a limit that was removed (None) / changed is really gone
     {
         let spec = gen::z_kitchen(false);
